@@ -24,6 +24,7 @@ func main() {
 	n := flag.Int("n", 1500, "number of random codec-level cases")
 	big := flag.Int("big", 1, "0: no large WebSocket messages; 1: 65535..65537; 2: + up to 128 KiB; 3: + 200 KiB, 300 KiB")
 	e2e := flag.Int("e2e", 0, "number of end-to-end exchanges over the stack (0 = none)")
+	flag.BoolVar(&withErrs, "errs", false, "handlers of generated routes sometimes call Response.Error (exhibits known finding C20-error-noop)")
 	flag.Parse()
 	defer w.Flush()
 	r := gen.New(*seed)
